@@ -28,6 +28,26 @@ K = 5
 
 def gen_leaf(rng):
     ins = [rng.choice([None, 1, 2, 3]), rng.choice([None, 0, 4])]
+    if rng.random() < 0.12:
+        # save/load cycles: the node writes a checkpoint at the end of every executed run; `reload` starts over from a
+        # fresh object that loads the last checkpoint (local runs only)
+        ops = [["run"]] if rng.random() < 0.5 else []
+        for _ in range(rng.randint(4, 14)):
+            r = rng.random()
+            if r < 0.4:
+                ops.append(["assign", rng.randint(0, 1), rng.choice([0, 1, 2, 3, -1])])
+            elif r < 0.75:
+                ops.append(["run"])
+            elif r < 0.85:
+                ops.append(["clear"])
+            else:
+                ops.append(["reload"])
+        ins = [rng.choice([1, 2, 3]), rng.choice([0, 4])]
+        if rng.random() < 0.5:
+            # ... returning, after the reload, to the inputs of the run BEFORE the one whose checkpoint was loaded
+            i = rng.randint(0, 1)
+            ops = [["run"], ["assign", i, ins[i] + rng.choice([1, 2])], ["run"], ["reload"], ["assign", i, ins[i]], ["run"]] + ops[:rng.randint(0, 5)]
+        return {"fam": "leaf", "ins": ins, "ops": ops, "ckpt": True}
     ops = []
     flying = False
     for _ in range(rng.randint(5, 25)):
@@ -160,8 +180,12 @@ def leaf_trace(case, use_cache, cancel_mask=None, cancel_log=None):
         kw["a"] = case["ins"][0]
     if case["ins"][1] is not None:
         kw["b"] = case["ins"][1]
-    n = nodes.Chk2(label="n", tag=1, k=K, **kw)
+    ckpt = bool(case.get("ckpt"))
+    label = "n" if not ckpt else ("nc" if use_cache else "nu")
+    n = nodes.Chk2(label=label, tag=1, k=K, autoload=None, checkpoint="pickle" if ckpt else None, **kw)
     n.recovery = None
+    if ckpt:
+        n.delete_storage("pickle")       # nothing left over from another case
     if not use_cache:
         n.use_cache = False
     ex = nodes.ManualExecutor(pending=True)
@@ -195,6 +219,12 @@ def leaf_trace(case, use_cache, cancel_mask=None, cancel_log=None):
                     out = ["cancelled", bool(ex.cancel(n.future))]
             elif op[0] == "clear":
                 n.failed = False
+            elif op[0] == "reload":
+                # a new session: a fresh object of the same label picks up the last checkpoint (if one was written)
+                n = nodes.Chk2(label=label, tag=1, k=K, autoload="pickle", checkpoint="pickle")
+                n.recovery = None
+                if not use_cache:
+                    n.use_cache = False
         except ReadinessError:
             out = "Readiness"
         except nodes.UserExc:
@@ -202,6 +232,8 @@ def leaf_trace(case, use_cache, cancel_mask=None, cancel_log=None):
         except RuntimeError:
             out = "Locked"
         tr.append([out, _vis(n)])
+    if ckpt:
+        n.delete_storage("pickle")
     return tr
 
 
@@ -439,8 +471,8 @@ def model_term(case):
         ks = cl(f"({cz(3 + 10 * i)}, {cz(v)})" for i, v in enumerate(case["init"]))
         ops = cl(_wop_coq(o) for o in case["ops"])
         return f"OL [{hits}; obs_wtrace true {ks} {ops}; obs_wtrace false {ks} {ops}]"
-    if case["fam"] != "leaf" or any(op[0] == "cancel" for op in case["ops"]):
-        return None         # a withdrawn job is not an op of Cache.v: such histories are judged by the twin oracle
+    if case["fam"] != "leaf" or any(op[0] == "cancel" for op in case["ops"]) or case.get("ckpt"):
+        return None         # a withdrawn job / a reload from the checkpoint file is not an op of Cache.v: twin oracle only
     return f"OL [{leaf_term(case, True)}; {leaf_term(case, False)}]"
 
 
